@@ -1,5 +1,6 @@
-(* Extraction of the C10 model (GoConv) and specification (GoConvSpec) to OCaml. *)
+(* Extraction of the C10 model (GoConv), the kind table (GoConvKinds) and the specification (GoConvSpec) to OCaml. *)
 From Coq Require Import ZArith ExtrOcamlBasic.
-Require Import ZV.Model.GoConv ZV.Model.GoConvSpec.
+Require Import ZV.Model.GoConv ZV.Model.GoConvSpec ZV.Model.GoConvKinds.
 Extraction "model.ml" Z.add Z.mul Z.opp Z.div_eucl Z.of_nat Z.to_nat Z.compare
-  to_go echo spec_to_go spec_echo wf_tenv spec_dets find_reg find_struct hist_convert hist_receiver hist_return hash_set.
+  to_go echo spec_to_go spec_echo wf_tenv spec_dets find_reg find_struct hist_convert hist_receiver hist_return hash_set
+  jsonmap lookup_last resolve spec_find designates conv denote zero_of empty_state kind_table skind_of tkind_of.
